@@ -36,7 +36,7 @@ func (c25) Describe() engine.Info {
 			"interleaving is cooperative and decided by the seed; truly concurrent execution under the race detector is not part of the deciding step (a race without a behavioural difference in some interleaving is outside what this check can show)",
 			"a panic of the emulator ends that instance's run; it must occur at the same cycle as in the solo run",
 		},
-		RequiredProbes: []string{"single_cycle_slices", "created_mid_run", "instances"},
+		RequiredProbes: []string{"blocked_in_serial_writer", "single_cycle_slices", "created_mid_run", "instances"},
 		RealComponents: realComponents, StubComponents: stubComponents,
 	}
 }
@@ -60,6 +60,10 @@ func (c25) Generate(r *engine.Rand, index int, tier string) *engine.Scenario {
 	sc.Cycles = total
 	gran := r.Intn(3)
 	sc.SetP("gran", int64(gran))
+	if r.Bool() {
+		// slow serial consumers: an instance blocks inside its writer, the others run meanwhile
+		sc.SetP("slow_serial", 1)
+	}
 	// schedule: events "spawn" (A=instance) and "step" (A=instance, N=cycles)
 	created := make([]bool, n)
 	left := make([]uint64, n)
@@ -120,9 +124,10 @@ func (c25) Generate(r *engine.Rand, index int, tier string) *engine.Scenario {
 }
 
 type c25inst struct {
-	m  *machine.Machine
-	t  *tracer
-	ok bool // still running (no panic)
+	m    *machine.Machine
+	t    *tracer
+	ok   bool   // still running (no panic)
+	debt uint64 // cycles of earlier slices not yet run because the instance blocked in its serial writer
 }
 
 func c25new(sc *engine.Scenario, i int, res *engine.Result) *c25inst {
@@ -133,23 +138,43 @@ func c25new(sc *engine.Scenario, i int, res *engine.Result) *c25inst {
 	}
 	in := &c25inst{m: m, t: newTracer(m, 2048), ok: true}
 	m.OnCycle = in.t.cycle
+	m.SlowSerial = sc.P("slow_serial", 0) != 0
 	m.StartCo(int(sc.Cycles / 17556))
 	return in
 }
 
-func (in *c25inst) step(k uint64, res *engine.Result) {
+// step lets the instance run k more cycles. If it blocks inside its serial writer (slow
+// consumer) the slice ends there and the rest is owed to the instance's next slice; a solo run
+// resumes it at once.
+func (in *c25inst) step(k uint64, res *engine.Result, solo bool) {
 	if !in.ok || in.m.StoppedOnUndefined {
 		return
 	}
-	if in.m.Resume(k) {
-		in.ok = false
-		if pi := in.m.CoPanic(); pi != nil {
-			if !pi.Emulator {
-				res.Harness = "harness panic: " + pi.Value + "\n" + pi.Stack
+	target := in.m.N + k + in.debt
+	in.debt = 0
+	for in.m.N < target || in.m.InWriter() {
+		if in.m.N >= target {
+			target = in.m.N + 1 // blocked in the writer with nothing left: finish the cycle in flight
+		}
+		if in.m.Resume(target - in.m.N) {
+			in.ok = false
+			if pi := in.m.CoPanic(); pi != nil {
+				if !pi.Emulator {
+					res.Harness = "harness panic: " + pi.Value + "\n" + pi.Stack
+					return
+				}
+				in.t.dg.Str("panic:" + pi.Site)
+				in.t.dg.U64(in.m.N)
+			}
+			return
+		}
+		if in.m.InWriter() {
+			res.Probe("blocked_in_serial_writer")
+			if !solo {
+				in.debt = target - in.m.N
+				res.Fault("serial_writer_stall")
 				return
 			}
-			in.t.dg.Str("panic:" + pi.Site)
-			in.t.dg.U64(in.m.N)
 		}
 	}
 }
@@ -164,7 +189,7 @@ func (c25) Execute(sc *engine.Scenario) *engine.Result {
 		if in == nil {
 			return res
 		}
-		in.step(sc.Cycles, res)
+		in.step(sc.Cycles, res, true)
 		if res.Harness != "" {
 			return res
 		}
@@ -196,7 +221,7 @@ func (c25) Execute(sc *engine.Scenario) *engine.Result {
 			if in == nil {
 				continue // its spawn event was removed by the minimiser
 			}
-			in.step(uint64(ev.N), res)
+			in.step(uint64(ev.N), res, false)
 			if res.Harness != "" {
 				return res
 			}
@@ -208,6 +233,15 @@ func (c25) Execute(sc *engine.Scenario) *engine.Result {
 	}
 	if midRun {
 		res.Probe("created_mid_run")
+	}
+	// instances still blocked in their serial writer, or owed cycles, run to their end
+	for _, in := range insts {
+		if in != nil && (in.debt > 0 || in.m.InWriter()) {
+			in.step(0, res, true)
+			if res.Harness != "" {
+				return res
+			}
+		}
 	}
 	kinds := ""
 	for i, in := range insts {
